@@ -9,6 +9,7 @@ import (
 	"strings"
 
 	"github.com/mattn/anko/ast"
+	"github.com/mattn/anko/env"
 	"github.com/mattn/anko/parser"
 
 	"veriftools/internal/astser"
@@ -364,6 +365,22 @@ func streamParse(o *Out, r *rand.Rand, n int, thorough bool) {
 		{"[", "]", "(expr (arr ", "))"},
 		{"throw ", "", "(throw ", ")"},
 	}
+	for _, c := range [][2]string{{"1 + 2 + \"a\"", "((1 + 2) + \"a\")"}, {"a + b + \" items\"", "((a + b) + \" items\")"}, {"1 + 2 + 3 + \"x\" + 4 + 5", "(((((1 + 2) + 3) + \"x\") + 4) + 5)"},
+		{"1.5 + 2 + \"s\"", "((1.5 + 2) + \"s\")"}, {"true + 1 + \"t\"", "((true + 1) + \"t\")"}, {"1 - 2 - 3", "((1 - 2) - 3)"}, {"2 * 3 + 4 * 5", "((2 * 3) + (4 * 5))"},
+		{"a + b + c + \"\"", "(((a + b) + c) + \"\")"}, {"\"n=\" + a + b", "((\"n=\" + a) + b)"}, {"8 / 2 / 2", "((8 / 2) / 2)"}, {"1 < 2 == true", "((1 < 2) == true)"}, {"1 + 2 << 1", "(1 + (2 << 1))"}} {
+		run := func(src string) string {
+			e := env.NewEnv()
+			_ = e.Define("a", int64(1))
+			_ = e.Define("b", int64(2))
+			_ = e.Define("c", int64(3))
+			v, err, pv := execGuard(e, src)
+			return fmt.Sprintf("%#v / error %v / panic %v", v, err != nil, pv)
+		}
+		o.Sum.Evaluations++
+		if x, y := run(c[0]), run(c[1]); x != y {
+			o.Fail(Failure{Oracle: "tree-as-spelled", Key: "spellings-evaluate-differently", Input: c[0] + "   vs   " + c[1], Detail: fmt.Sprintf("as written: %s; parenthesised: %s (a = 1, b = 2, c = 3)", x, y)})
+		}
+	}
 	for i := 0; i < n; i++ {
 		g := &pgen{r: r, lits: i%2 == 1}
 		binOnly := i%3 == 0
@@ -403,6 +420,31 @@ func streamParse(o *Out, r *rand.Rand, n int, thorough bool) {
 			got, ok := exprOf(stmt)
 			if !ok || got != want {
 				o.Fail(Failure{Oracle: "tree-as-spelled", Key: "parse-tree:" + sp.name, Input: src, Detail: fmt.Sprintf("intended %s\nparsed   %s", want, got)})
+			}
+		}
+		// the two spellings denote the same tree, so they denote the same value: both are evaluated with the identifiers bound to a mix of
+		// numbers, strings, booleans, lists and nil - an evaluator that treats a written parenthesis as more than grouping is seen here
+		{
+			pool := []interface{}{int64(1), int64(2), "s", 2.5, true, int64(0), "7", []interface{}{int64(1), int64(2)}, nil, int64(-3), "", 0.5}
+			run := func(src string) string {
+				e := env.NewEnv()
+				for k := 1; k <= g.n+1; k++ {
+					_ = e.Define(fmt.Sprintf("v%d", k), pool[(k+i)%len(pool)])
+				}
+				v, err, pv := execGuard(e, src)
+				if pv != nil {
+					return fmt.Sprintf("panic %v", pv)
+				}
+				if err != nil {
+					return "error"
+				}
+				return fmt.Sprintf("%#v", v)
+			}
+			vmin, vfull := run(t.printMin(0)), run(t.printFull())
+			o.Sum.Hist["spellings-evaluated"]++
+			if vmin != vfull {
+				o.Fail(Failure{Oracle: "tree-as-spelled", Key: "spellings-evaluate-differently", Input: t.printMin(0) + "   vs   " + t.printFull(),
+					Detail: fmt.Sprintf("as written: %s; with every implied parenthesis written out: %s (identifiers v<k> bound to %v, rotated by %d)", vmin, vfull, pool, i%len(pool))})
 			}
 		}
 		if lt, ok := t.leanTree(); ok {
